@@ -127,11 +127,23 @@ func runC20(run *Run, replay string) {
 		if r.Intn(3) == 0 {
 			fmt.Fprintf(&sb, "blk {\n  x = %s\n}\n", genCallExpr(r, 2))
 		}
+		// a function with a variadic parameter only
+		funcs["vonly"] = schema.FunctionSignature{ReturnType: cty.String, VarParam: &function.Parameter{Name: "items", Type: cty.String, Description: "variadic only"}}
+		served := funcs
+		if bi%2 == 1 {
+			// the table handed to the decoder is a copy of the generated one (as a table derived per request is)
+			served = map[string]schema.FunctionSignature{}
+			for k, v := range funcs {
+				v := v
+				served[k] = *v.Copy()
+			}
+			fmt.Fprintf(&sb, "zv = vonly(\"a\", noargs(), 3)\n")
+		}
 		base := sb.String()
 		texts := append([]string{base}, histories(r, base, hist)...)
 		for ti, text := range texts {
 			w := newWorld()
-			pd := w.AddPath("root", schema.NewBodySchema(), map[string]string{"main.tf": text}, funcs)
+			pd := w.AddPath("root", schema.NewBodySchema(), map[string]string{"main.tf": text}, served)
 			f := pd.Ctx.Files["main.tf"]
 			body, ok := f.Body.(*hclsyntax.Body)
 			if !ok {
